@@ -49,6 +49,7 @@ def slot_of(line):
         out.update(qfield(v))
         out["u"] = unit_name(v["group"], v["index"])
         out["group"] = v["group"]
+        out["index"] = v["index"]
     elif k == "dur":
         d, s = split_secs(v["secs"])
         out.update({"d": d, "s": s, "nanos": v.get("nanos", 0)})
@@ -79,7 +80,7 @@ def slots_of_step(step):
 
 def trace_slot(slot):
     """the part of a slot that goes into a TLC trace event (no floats, no free text)"""
-    keep = ("k", "q", "irr", "cur", "u", "d", "s", "day", "sod", "off", "zone", "nt", "parts", "digits", "pr", "ts", "bits")
+    keep = ("k", "q", "irr", "cur", "u", "d", "s", "day", "sod", "off", "zone", "nt", "parts", "digits", "pr", "ts", "bits", "group", "index", "same_as_base")
     return {k: slot[k] for k in keep if k in slot}
 
 
